@@ -45,8 +45,8 @@ theorem replaceInline_ext (text : Str) (e : Expand) : Ext (replaceInline rec env
   have hs := hr.spans
   unfold replaceInline; ext_go
 
-theorem replaceGroupText_ext (g : Str) (spans : Bool) (e : Expand) :
-    Ext (replaceGroupText rec env g spans e) (replaceGroupText rec' env g spans e) := by
+theorem replaceGroupText_ext (g : Str) (spans : Bool) (e : Expand) (ia : Bool) :
+    Ext (replaceGroupText rec env g spans e ia) (replaceGroupText rec' env g spans e ia) := by
   have hi := replaceInline_ext hr env
   unfold replaceGroupText; ext_go
 
